@@ -299,3 +299,46 @@ def c19d(ctx):
             else:
                 ctx.bad('%s:%s' % (o.rule, o.construct), o.msg, o.where)
         ctx.stats['functions'] |= sub.stats['functions']
+
+
+@rule('C19.e', floor=4)
+def c19e(ctx):
+    """in-place header rewrite of the V1 data file reads and writes the header at offset 0; defrag renames the index file
+    of the temporary bundle onto the original index name"""
+    fn = ctx.fn(COMPACT + ':BundleDataV1.append_tile')
+    seq = sorted([x for x in fn.walk() if is_call(x, 'self._fh.seek', 'self._fh.read', 'self._fh.write')], key=order_key)
+    hdr_ops = []
+    for i, x in enumerate(seq):
+        is_hdr = contains(x, lambda y: isinstance(y, ast.Name) and y.id == 'BUNDLE_V1_HEADER_STRUCT_FORMAT') or \
+            (is_call(x, 'self._fh.read') and x.args and try_const(x.args[0], ctx.repo, ctx.repo.mod(COMPACT)) == 60)
+        par = getattr(x, '_parent', None)
+        while par is not None and not is_hdr and not isinstance(par, ast.stmt):
+            if contains(par, lambda y: isinstance(y, ast.Name) and y.id == 'BUNDLE_V1_HEADER_STRUCT_FORMAT'):
+                is_hdr = True
+            par = getattr(par, '_parent', None)
+        if is_hdr and not is_call(x, 'self._fh.seek'):
+            prev = seq[i - 1] if i else None
+            hdr_ops.append((x, prev))
+    ok = len(hdr_ops) == 2
+    for x, prev in hdr_ops:
+        ok = ok and prev is not None and is_call(prev, 'self._fh.seek') and try_const(prev.args[0]) == 0 and \
+            (len(prev.args) == 1 or unparse(prev.args[1]) == 'os.SEEK_SET')
+    ctx.check(ok, 'BundleDataV1.append_tile:header-at-zero', 'the header is read from and written back to offset 0 (seek(0) directly before each)', fn,
+              fail='the V1 header is read or rewritten at another position than offset 0: the record just appended or the header is overwritten')
+    defs = Defs(fn.node)
+    upd = [s for s in fn.walk() if isinstance(s, (ast.Assign, ast.AugAssign)) and isinstance(getattr(s, 'targets', [getattr(s, 'target', None)])[0], ast.Subscript)
+           and unparse(getattr(s, 'targets', [getattr(s, 'target', None)])[0].value) == 'header']
+    idx = sorted({const_value(getattr(s, 'targets', [getattr(s, 'target', None)])[0].slice) for s in upd})
+    ctx.check(idx == [2, 4, 5], 'BundleDataV1.append_tile:header-fields', 'fields #2 (largest tile), #4 (tile count) and #5 (bundle size) are maintained', fn)
+    ret = returns_of(fn.node)
+    ok = bool(ret) and all(isinstance(r.value, ast.Tuple) and [unparse(e) for e in r.value.elts] == ['offset', 'size'] for r in ret)
+    offs = [v for v, sel in defs.of('offset') if is_call(v, 'self._fh.tell')]
+    ctx.check(ok and bool(offs), 'BundleDataV1.append_tile:returns-record-offset', 'returns (offset of the record = tell() at the end of the file, size)', fn)
+    df = ctx.fn(DEFRAG + ':defrag_compact_cache')
+    rn = sorted([x for x in df.walk() if is_call(x, 'os.rename', 'os.replace')], key=order_key)
+    ok = len(rn) == 2
+    if ok:
+        a, b = rn[1].args
+        ok = 'tmp_bundle' in unparse(a) and 'bundlx' in unparse(a) and 'bundle_file' in unparse(b) and 'tmp_bundle' not in unparse(b)
+    ctx.check(ok, 'defrag:index-rename-direction', 'the temporary index file is renamed onto the original index name', df,
+              fail='defrag renames the index file in the wrong direction')
